@@ -216,6 +216,8 @@ class Engine(object):
                 out.ghost = {'$yrow': fr.env['$yrow']}
             if '$yseq' in fr.env:
                 out.ghost = {'$yseq': fr.env['$yseq'], '$ylen': fr.env['$ylen']}
+            if '$ydeg' in fr.env:
+                out.ghost = {'$ydeg': fr.env['$ydeg']}
             return out
         return ret
 
@@ -341,6 +343,20 @@ def b_len(interp, argv, kwv, fr):
         return b_len(interp, [interp.esc_target(v)], kwv, fr)
     if v.kind == 'path':
         return VInt(v.w.PL(v.c))
+    if v.kind == 'row' or (v.kind == 'bag' and len(v.sorts) == 1):
+        # len of a collection that holds each member once: its cardinality, an uninterpreted non-negative integer remembered together
+        # with the membership predicate (trusted counting lemma: equal membership => equal cardinality; contracts compare memberships)
+        from .loops import VBag
+        if v.kind == 'row':
+            Cells = v.g['Cell_' + v.w][v.u]
+            v = VBag([Node], lambda b: Cells[b] != 0, lambda b: VNode(b), note='neighbours')
+        c = fresh('card', Int)
+        interp.ctx.assume(c >= 0)
+        if not hasattr(interp.ctx, 'cards'):
+            interp.ctx.cards = []
+        interp.ctx.cards.append((c, v))
+        r = VInt(c)
+        return r
     from . import seqs
     return seqs.len_of(interp, v)
 
@@ -369,6 +385,8 @@ def b_list(interp, argv, kwv, fr):
         return v
     if v.kind == 'bag':
         return v            # list(<generator>): the same elements, each once, in the generator's (unspecified) order
+    if v.kind == 'row':
+        return _row_bag(v)  # list(self._adj[n]): the keys of the row, each once
     items = interp.static_items(v)
     if items is not None:
         return VList(items)
@@ -376,7 +394,15 @@ def b_list(interp, argv, kwv, fr):
     return seqs.to_seq(interp, v)
 
 
+def _row_bag(v):
+    from .loops import VBag
+    Cells = v.g['Cell_' + v.w][v.u]
+    return VBag([Node], lambda b: Cells[b] != 0, lambda b: VNode(b), note='neighbours')
+
+
 def b_iter(interp, argv, kwv, fr):
+    if argv[0].kind == 'row':
+        return _row_bag(argv[0])            # iter(self._adj[n]): the keys of the row, each once
     return argv[0]
 
 
